@@ -166,6 +166,14 @@ func c09Case(w *rt.W, text string, r date.Rule, allPaths bool) int {
 	return c09RejOther
 }
 
+// c09ParserWith is the helper a program configures its Parser through: every closure it returns is the same function
+// literal (one code pointer) with another rule captured. Not inlined, as a helper in another package would not be.
+//
+//go:noinline
+func c09ParserWith(r date.Rule) func(in []byte, rule date.Rule) (date.Date, error) {
+	return func(in []byte, rule date.Rule) (date.Date, error) { return date.DefaultParser(in, rule|r) }
+}
+
 func runC09(c *rt.Ctx) {
 	soloRun(c, "date")
 	callerEditsReturnedErrors(c, map[string]func() error{
@@ -538,6 +546,39 @@ func runC09(c *rt.Ctx) {
 			w.NT(int64(len(steps) * len(steps) * len(steps)))
 		})
 		c.Require("rule-alternating-history", 1700)
+		{
+			// longer histories over more texts (tables of the last few accepted texts), and the Parser variable set twice
+			// through the same helper with another rule captured (closures of one function literal share their code)
+			var hs []func(w *rt.W)
+			for _, t := range []string{"2021-03-04", "20210304", "2000-02-29", "19991231", "2021-02-30", "20210230", "20200101", "2020-01-01", "19000228", "1900-02-28", "99991231", "00000101"} {
+				for _, r := range []date.Rule{0, date.RuleDisableBasic} {
+					t, r := t, r
+					hs = append(hs, func(w *rt.W) { c09Case(w, t, r, false) })
+				}
+			}
+			randomHistories(c, hs, 6000, 32)
+			oldP := date.Parser
+			with := c09ParserWith
+			c.Serial("parser-variable-set-twice-through-one-helper", func(w *rt.W) {
+				for round := 0; round < 3; round++ {
+					for _, text := range []string{"20200101", "19991231", "20240229"} {
+						date.Parser = with(0)
+						var d1 date.Date
+						err1 := d1.UnmarshalText([]byte(text))
+						date.Parser = with(date.RuleDisableBasic)
+						d2 := date.New(1999, 9, 9)
+						err2 := d2.UnmarshalText([]byte(text))
+						w.Eval(2)
+						if err1 != nil || err2 == nil || !errors.Is(err2, date.ErrBasicFormatDisabled) || !d2.Equal(date.New(1999, 9, 9)) {
+							w.Fail("configured-rule-ignored-after-parser-variable-was-set-again", "parsertwice", rt.Args("text", text, "round", round), fmt.Sprint("first: ", d1, " ", err1, "; second: ", d2, " ", err2), "first accepted; second refused with the basic-format error, receiver untouched", "the Parser variable was assigned a second closure of the same function literal, capturing RuleDisableBasic; UnmarshalText uses the Parser variable")
+						}
+						w.ClassN("parser-variable-set-twice", 1)
+					}
+				}
+			})
+			date.Parser = oldP
+			c.Require("parser-variable-set-twice", 9)
+		}
 	}
 	// every limit from 0 to 24 (a limit of 9 sits between the two layouts, 11..15 between the year widths) on a
 	// reduced grid: all four separator layouts, months and days at and beyond their ends
